@@ -170,6 +170,13 @@ func fill(v reflect.Value, mode string, r *rnd, depth int) {
 		}
 	case reflect.Struct:
 		for i := 0; i < v.NumField(); i++ {
+			if sf := t.Field(i); sf.Anonymous && !sf.IsExported() && sf.Type.Kind() == reflect.Struct {
+				// an embedded struct of an unexported type: not settable itself, its exported fields are (and are promoted by encoding/json)
+				for j := 0; j < sf.Type.NumField(); j++ {
+					fill(v.Field(i).Field(j), mode, r, depth+1)
+				}
+				continue
+			}
 			fill(v.Field(i), mode, r, depth+1)
 		}
 	case reflect.Interface:
